@@ -576,6 +576,10 @@ def gen_metric_points(ck: Check):
             for d in ("499", "500", "501"):
                 yield kind, (f"{k}.{d}", "0", "0", "0"), "dec-edge"
                 yield kind, ("0.0", f"{k}.{d}", "0", "0.000"), "dec-edge"
+        # tsp225[166,169]: exactly 88.5 in decimal arithmetic, 88.49999999999997 in binary64 (TSPLIB95 defines the latter)
+        yield kind, ("525.42", "281.65", "525.42", "193.15"), "dec-edge"
+        yield kind, ("0.1", "0.7", "0.1", "0.2"), "dec-edge"
+        yield kind, ("1.1", "2.2", "1.1", "0.7"), "dec-edge"
 
 
 # --------------------------------------------------------------------------- streams
@@ -675,7 +679,7 @@ def streams(ck: Check) -> None:
         for fmt in FORMATS:
             toks = py_listing(fmt, M)
             k = rng.randrange(5)
-            if k == 1 and "DIAG" in fmt:      # arbitrary diagonal entries are skipped
+            if k == 1 and fmt != "UPPER_ROW":  # arbitrary diagonal entries are skipped / overwritten with 0
                 D = [row[:] for row in M]
                 for i in range(n):
                     D[i][i] = rng.choice([7, -1, 10**15])
